@@ -128,7 +128,7 @@ func (nd *ndArrayTypeC) Reshape(newShape []int) (data.NDArrayType, error) {
 
 	reshapeToSeries := (len(newShape) == 1) && (data.Maximum(nd.Shape()) == len(newShape))
 
-	if nd.Contiguous() || !reshapeToSeries {
+	if nd.Contiguous() {
 		result.Start = nd.Start
 		result.Impl = nd.Impl
 		result.OriginalDims = newShape
@@ -138,6 +138,11 @@ func (nd *ndArrayTypeC) Reshape(newShape []int) (data.NDArrayType, error) {
 		result.Offset = data.Offsets(newShape)
 		result.OffsetStep = data.Multiply(result.Step, result.Offset)
 		return &result, nil
+	}
+
+	if !reshapeToSeries {
+		// Not contiguous: gather in row-major order, as the Go-backed arrays do
+		return data.ArrayFromSliceArrayType(nd.Unroll(), newShape), nil
 	}
 
 	seriesDim := data.Argmax(nd.Shape())
